@@ -824,6 +824,19 @@ func (tr *intTr) lazy1(t *Term) *Poly {
 			r.iv = kiv(big0, big1)
 			return r
 		}
+		// x | c  =  x + c - (x & c)  for a constant c
+		for k := 0; k < 2; k++ {
+			x, cst := a, b
+			if k == 1 {
+				x, cst = b, a
+			}
+			if cst.IsConst() {
+				if _, _, ok := contiguousMask(cst.val); ok {
+					and := tr.lazy(BvAnd(x, cst))
+					return pSub(pAdd(tr.canon(x), pConst(cst.val)), and)
+				}
+			}
+		}
 		fail("int translation: bvor of overlapping operands (%s | %s)", termString(a, 2), termString(b, 2))
 	case OBvXor:
 		a, b := t.args[0], t.args[1]
